@@ -2,6 +2,7 @@
 #include "field.h"
 #include "atom.h"
 #include "core_parser.h"
+#include "core.h"
 #ifdef ORATIO_VERIF
 #include "core.h"
 #endif
@@ -38,8 +39,25 @@ namespace ratio
         for (const auto &sp : supertypes)
             static_cast<predicate *>(sp)->apply_rule(a);
 
-        context ctx(new env(get_core(), context(&a)));
+        // the rule of a predicate declared at global scope (e.g. Interval and Impulse) sees the atom only through the parameters of this
+        // predicate and of its super-predicates, and then the global scope: the parameters of a sub-predicate and the fields of the object
+        // the atom belongs to (e.g. a field or a parameter named 'horizon') must not capture the names the rule uses..
+        const bool global = &get_scope() == static_cast<scope *>(&get_core());
+        context ctx(new env(get_core(), context(global ? static_cast<env *>(&get_core()) : static_cast<env *>(&a))));
         ctx->exprs.emplace(THIS_KEYWORD, &a);
+        if (global)
+        {
+            std::queue<predicate *> q;
+            q.push(this);
+            while (!q.empty())
+            {
+                for (const auto &arg : q.front()->args)
+                    ctx->exprs.emplace(arg->get_name(), a.get(arg->get_name()));
+                for (const auto &st : q.front()->supertypes)
+                    q.push(static_cast<predicate *>(st));
+                q.pop();
+            }
+        }
 #ifdef ORATIO_VERIF
         get_core().verif_note(0, &a, this, ctx);
 #endif
